@@ -114,8 +114,11 @@ _blackbox_vlogger(int32_t target,
 	if (msg_len >= t->max_line_length) {
 	    chunk = msg_len_pt + sizeof(uint32_t); /* Reset */
 
-	    /* Leave this at QB_LOG_MAX_LEN so as not to overflow the blackbox */
-	    msg_len = qb_vsnprintf_serialize(chunk, QB_LOG_MAX_LEN,
+	    /* Never more than QB_LOG_MAX_LEN, and never more than the
+	     * max_line_length bytes reserved for the message above, so as
+	     * not to overflow the blackbox */
+	    msg_len = qb_vsnprintf_serialize(chunk,
+		QB_MIN(t->max_line_length, QB_LOG_MAX_LEN),
 		"Log message too long to be stored in the blackbox.  "\
 		"Maximum is QB_LOG_MAX_LEN" , ap);
 	}
